@@ -1,6 +1,10 @@
 """Stand-in for `inline_snapshot` used by the harness when it evaluates a rewritten module
 without the library: snapshot(x) is x, snapshot() is the MISSING marker."""
-from inline_snapshot import HasRepr, Is, external, outsource  # noqa: F401
+from inline_snapshot import HasRepr, external, outsource  # noqa: F401
+
+
+def Is(v):
+    return v
 
 
 class _Missing:
